@@ -253,6 +253,8 @@ class NDNApp:
                 del self._int_tree[node_name]
             raise InterestTimeout()
         except aio.CancelledError:
+            if node.timeout(future) and self._int_tree.get(node_name) is node:
+                del self._int_tree[node_name]
             raise InterestCanceled()
         if validator is None:
             validator = self.data_validator
